@@ -45,6 +45,8 @@ func newVectorizedTable(a vectorAccumulator) *vectorTable {
 }
 
 func (t *vectorTable) aggregate(_ float64, vector model.StepVector) {
+	// The output belongs to the step of the input, also when the input has no samples.
+	t.timestamp = vector.T
 	if len(vector.SampleIDs) == 0 {
 		t.hasValue = false
 		return
